@@ -172,7 +172,7 @@ class Check:
         """Design step: spec invariants must hold (they do not depend on /repo). Failure => tool error."""
         r = self.tlc(module, cfg, **kw)
         if not r.ok:
-            log(r.out[-5000:])
+            log(tlc_error_excerpt(r.out))
             raise ToolError("design step failed for %s (spec defect, not a property violation)" % (cfg or module))
         self.states += r.distinct
         self.transitions += r.generated
@@ -201,7 +201,7 @@ class Check:
                     rej = -1
         accepted = r.ok and rej is None and not r.postcondition_failed
         if not accepted and rej is None and not r.postcondition_failed:
-            log(r.out[-5000:])
+            log(tlc_error_excerpt(r.out))
             raise ToolError("trace validation of %s crashed (tool error)" % trace_path)
         self.transitions += r.generated
         self.states += r.distinct
@@ -270,6 +270,18 @@ def main(pid, body):
         log("TOOL-ERROR %s: %s" % (pid, e))
         sys.exit(2)
     sys.exit(rc)
+
+
+def tlc_error_excerpt(out):
+    """first error lines of a TLC run, with huge values cut"""
+    lines = out.split("\n")
+    idx = [i for i, l in enumerate(lines) if l.startswith("Error") or "Exception" in l or "violated" in l]
+    if not idx:
+        return "\n".join(l[:300] for l in lines[-25:])
+    res = []
+    for i in idx[:4]:
+        res += [l[:300] for l in lines[i:i + 12]]
+    return "\n".join(res[:60])
 
 
 def read_ndjson(path):
